@@ -1,7 +1,16 @@
-(* C12 -- graph queries agree with their graph-theoretic definitions.  Statements only; proofs in Proofs/QueriesProofs.v. *)
+(* C12 -- graph queries agree with their graph-theoretic definitions.  Statements only; proofs in Proofs/QueriesProofs.v.
+   Paths are node lists (Model/Paths.v): path c u v k = u reaches v in k edges, reach1 = proper, has_cycle = some reach1 c u u. *)
 From stdpp Require Import strings gmap sets.
 From CG Require Import Sem Base.Cases Model.Paths Proofs.PathsProofs Model.Queries Proofs.QueriesProofs.
 Open Scope string_scope.
+
+(* fanin(ns) / fanout(ns): direct predecessors / successors of the node list *)
+Theorem C12_fanin : ∀ c ns y, y ∈ fanin_l c ns ↔ ∃ n, n ∈ ns ∧ y ∈ fanin c n.
+Proof. exact elem_of_fanin_l. Qed.
+Print Assumptions C12_fanin.
+Theorem C12_fanout : ∀ c ns y, y ∈ fanout_l c ns ↔ ∃ n, n ∈ ns ∧ n ∈ fanin c y.
+Proof. exact elem_of_fanout_l. Qed.
+Print Assumptions C12_fanout.
 
 (* transitive_fanin(ns) = proper ancestors of ns; transitive_fanout(ns) = proper descendants *)
 Theorem C12_tfi : ∀ c ns x, closed c → (x ∈ tfi c ns ↔ ∃ n, n ∈ ns ∧ reach1 c x n).
@@ -10,3 +19,88 @@ Print Assumptions C12_tfi.
 Theorem C12_tfo : ∀ c ns x, closed c → (x ∈ tfo c ns ↔ ∃ n, n ∈ ns ∧ reach1 c n x).
 Proof. exact tfo_spec. Qed.
 Print Assumptions C12_tfo.
+
+(* startpoints(ns) / endpoints(ns): the inputs and bb_outputs (outputs and bb_inputs) among ns and its ancestors (descendants) *)
+Theorem C12_startpoints : ∀ c ns x, closed c → ns ≠ [] →
+  (x ∈ startpoints_of c ns ↔ x ∈ startpoints c ∧ ∃ n, n ∈ ns ∧ reach c x n).
+Proof. exact startpoints_of_spec. Qed.
+Print Assumptions C12_startpoints.
+Theorem C12_endpoints : ∀ c ns x, closed c → ns ≠ [] →
+  (x ∈ endpoints_of c ns ↔ x ∈ endpoints c ∧ ∃ n, n ∈ ns ∧ reach c n x).
+Proof. exact endpoints_of_spec. Qed.
+Print Assumptions C12_endpoints.
+
+(* fanin_depth / fanout_depth (maximum): ValueError on a cyclic graph; otherwise a path of that length exists and none is longer *)
+Theorem C12_fanin_depth : ∀ c ns d, closed c → ns ≠ [] → Forall (.∈ dom c) ns →
+  (has_cycle c → fanin_depth c ns = Raise ValueError) ∧
+  (¬ has_cycle c → fanin_depth c ns = Ok d →
+     (∃ u n, n ∈ ns ∧ path c u n d) ∧ ∀ u n k, n ∈ ns → path c u n k → k ≤ d).
+Proof. exact fanin_depth_spec. Qed.
+Print Assumptions C12_fanin_depth.
+Theorem C12_fanout_depth : ∀ c ns d, closed c → ns ≠ [] → Forall (.∈ dom c) ns →
+  (has_cycle c → fanout_depth c ns = Raise ValueError) ∧
+  (¬ has_cycle c → fanout_depth c ns = Ok d →
+     (∃ u n, n ∈ ns ∧ path c n u d) ∧ ∀ u n k, n ∈ ns → path c n u k → k ≤ d).
+Proof. exact fanout_depth_spec. Qed.
+Print Assumptions C12_fanout_depth.
+
+(* is_cyclic is true exactly when a directed cycle exists *)
+Theorem C12_cyclic : ∀ c, closed c → (is_cyclic c = true ↔ has_cycle c).
+Proof. exact is_cyclic_spec. Qed.
+Print Assumptions C12_cyclic.
+
+(* a list accepted by the checker enumerates the nodes once and places every fan-in node before its fan-out node
+   (topo_sort itself is networkx; each recorded answer is validated by this checker) *)
+Theorem C12_topo_checker : ∀ c l, is_topo_order c l = true →
+  NoDup l ∧ (∀ x, x ∈ l ↔ x ∈ dom c) ∧ ∀ l1 n l2, l = (l1 ++ n :: l2)%list → ∀ f, f ∈ fanin c n → f ∈ l1.
+Proof. exact topo_order_sound. Qed.
+Print Assumptions C12_topo_checker.
+
+(* reconvergent_fanout_nodes: exactly the nodes with two distinct fan-out branches that reach a common node (reflexive reach) *)
+Theorem C12_reconvergent : ∀ c g, closed c →
+  (g ∈ reconvergent c ↔ ∃ a b m, a ≠ b ∧ a ∈ fanout c g ∧ b ∈ fanout c g ∧ reach c a m ∧ reach c b m).
+Proof. exact reconvergent_spec. Qed.
+Print Assumptions C12_reconvergent.
+
+(* kcuts(n, k), for every iteration order of the fan-in sets: every cut other than {n} has at most k nodes (k = 0 included),
+   and every cut meets every path from a node without fan-in to n *)
+Theorem C12_kcuts : ∀ c n k ord cuts cut, closed c → kcuts c n k ord = Ok cuts → cut ∈ cuts →
+  (cut = {[n]} ∨ size cut ≤ k) ∧ ∀ s l, fanin c s = ∅ → pathl c s n l → ∃ x, x ∈ cut ∧ x ∈ l.
+Proof.
+  intros c n k ord cuts cut Hc Hk Hcut. split; [by eapply kcuts_width|]. by eapply kcuts_separates.
+Qed.
+Print Assumptions C12_kcuts.
+
+(* levelize: the full statement (level = longest path from a source, for every valid topological order); proved part: the entries of
+   the depth table it is compared with by the oracle are longest-path lengths, and cyclic graphs are rejected.  Missing: the
+   induction along the topological order showing levelize_go reproduces the table (decided per case by the oracle). *)
+Definition C12_levelize_full : Prop := ∀ c order lv, closed c → ¬ has_cycle c →
+  (∀ n i, c !! n = Some i → lev0 (n_ty i) = true → n_fi i = ∅) →
+  levelize c order = Ok lv →
+  dom lv = dom c ∧ ∀ n d, lv !! n = Some d → (∃ u, path c u n d) ∧ ∀ u k, path c u n k → k ≤ d.
+Theorem C12_levelize_partial : ∀ c n, closed c →
+  (has_cycle c → ∀ order, levelize c order = Raise ValueError) ∧
+  (¬ has_cycle c → n ∈ dom c →
+     (∃ u, path c u n (lvl (depth_table c) n)) ∧ ∀ u k, path c u n k → k ≤ lvl (depth_table c) n).
+Proof.
+  intros c n Hc. split.
+  - intros Hcy order. unfold levelize. apply is_cyclic_spec in Hcy; [|done]. by rewrite Hcy.
+  - intros Hac Hn. by apply depth_table_spec.
+Qed.
+Print Assumptions C12_levelize_partial.
+
+(* non-vacuity: g -> a -> b, g -> b (the branch that is itself the meeting point), plus a second input *)
+Definition ex12 : circuit := mk_g
+  [("g", Input, false, []); ("h", Input, false, []); ("a", Not, false, ["g"]); ("b", And, false, ["a"; "g"]); ("o", Or, true, ["b"; "h"])].
+Example C12_ex_closed_acyclic : closed ex12 ∧ ¬ has_cycle ex12.
+Proof.
+  assert (closed ex12) as Hc by (apply closedb_spec; vm_compute; reflexivity). split; [done|].
+  intros H%is_cyclic_spec; [|done]. vm_compute in H. discriminate.
+Qed.
+Example C12_ex_values :
+  elements (tfi ex12 ["b"]) = ["a"; "g"] ∧ elements (tfo ex12 ["g"]) = ["b"; "a"; "o"] ∧ elements (reconvergent ex12) = ["g"] ∧
+  fanin_depth ex12 ["o"] = Ok 3 ∧ fanout_depth ex12 ["g"; "h"] = Ok 3 ∧ is_topo_order ex12 ["h"; "g"; "a"; "b"; "o"] = true ∧
+  rmap (fmap elements) (kcuts ex12 "o" 2 (λ n, elements (fanin ex12 n))) = Ok [["h"; "g"]; ["h"; "b"]; ["o"]].
+Proof. vm_compute. repeat split; reflexivity. Qed.
+Example C12_ex_cyclic : has_cycle (mk_g [("p", Buf, false, ["q"]); ("q", Not, true, ["p"])]).
+Proof. apply is_cyclic_spec; [apply closedb_spec; vm_compute; reflexivity|]. vm_compute. reflexivity. Qed.
